@@ -6,14 +6,14 @@ HOOKS = {
     "add_only": True,
 }
 ENGINES = [
-    {"name": "coq-model", "path": "/verif/coq", "serves_properties": ["C01", "C02", "C03", "C10", "C11", "C15", "C07", "C08", "C12", "C13", "C14", "C17", "C18", "C20"],
+    {"name": "coq-model", "path": "/verif/coq", "serves_properties": ["C01", "C02", "C03", "C04", "C09", "C19", "C05", "C06", "C16", "C10", "C11", "C15", "C07", "C08", "C12", "C13", "C14", "C17", "C18", "C20"],
      "kind_free_text": "hand-written Gallina model (Model/), proofs (Proofs/), property theorems (Props/), Coq 8.16.1"},
-    {"name": "correspondence", "path": "/verif/harness", "serves_properties": ["C01", "C02", "C03", "C10", "C11", "C15", "C07", "C08", "C12", "C13", "C14", "C17", "C18", "C20"],
+    {"name": "correspondence", "path": "/verif/harness", "serves_properties": ["C01", "C02", "C03", "C04", "C09", "C19", "C05", "C06", "C16", "C10", "C11", "C15", "C07", "C08", "C12", "C13", "C14", "C17", "C18", "C20"],
      "kind_free_text": "Go harness driving /repo (built with -tags verif) + extracted OCaml model and oracle (ocaml/) on the same cases"},
 ]
 NOTES = ("Every check: rebuild Coq closure of Props/<id>.v, parse Print Assumptions, build harness against /repo's working tree, "
          "run implementation and extracted model on the same generated cases, apply the extracted oracle to the implementation's observations.")
-NOT_APPLICABLE = {}
+NOT_APPLICABLE = {}  # every property is claimed
 
 def chk(pid, text, note, technique, design):
     return {"property_id": pid, "quick_cmd": "./check %s --tier quick" % pid, "thorough_cmd": "./check %s --tier thorough" % pid,
@@ -64,6 +64,21 @@ CHECKS = [
         "reference model as the property demands ('per-implementation reference model'); listed in DESIGN.md.",
         "Coq proof (induction over call histories against a field-by-field policy) + differential correspondence",
         "DESIGN.md section 8 C15, Appendix B"),
+    chk("C16",
+        "12 Coq theorems (Props/C16.v): C16_lock_paths_balanced and C16_source_* are re-proved by computation over coq/Generated/LockPaths.v, "
+        "which harness/lockpaths.go regenerates from /repo's source on every run (every return path of every method of both interval recorders, "
+        "the synchronized recorder and collectors and the catcher as a sequence of lock events), so a return path that skips Unlock breaks a "
+        "proof; over an LTS of G user goroutines with arbitrary programs, the ticker-driven flusher(s) and the mutex, for EVERY schedule: lock "
+        "invariant and mutual exclusion, no deadlock, every call terminates, at most one uncancelled flusher which never persists after "
+        "cancellation, and the counters persisted by EndTest equal the wrap-around sum of the increments linearised before it (nothing persisted "
+        "and the cycle dropped if it was never stamped - stated explicitly); a generic theorem covers any goroutines running balanced paths "
+        "over one RWMutex; C16_old_deadlock_refuted exhibits the pre-repair deadlock. Correspondence: flusher stalled between tick and lock "
+        "across EndTest/Reset (vpoint hooks), microsecond-ticker stress with watchdogs, one-flusher and sum oracles, race-detector build.",
+        "Trusted: Go runtime semantics; the lock-path translator is a narrow pattern extractor that fails loudly on constructs it does not "
+        "understand. 'No data races' as such: lock discipline theorem + race detector runs (labelled partial). One counter modelled; root-context "
+        "cancellation and collector errors not modelled.",
+        "Coq proof over regenerated source facts + LTS invariants over all schedules + stall-schedule correspondence",
+        "DESIGN.md section 8 C16"),
     chk("C17",
         "13 Coq theorems (Props/C17.v) for the six uncompressed collector kinds, all batch sizes, EVERY operation history and every writer fault "
         "schedule, over arbitrary documents: C17_log (writer records and Resolve are exactly metadata-then-accepted-samples, verbatim, once each, in "
@@ -90,6 +105,21 @@ CHECKS = [
         "ConvertFromCSV is modelled and compared, outside the property's wording.",
         "Coq proof (induction over fields/records/chunks) + differential correspondence",
         "DESIGN.md section 8 C18"),
+    chk("C19",
+        "11 Coq theorems (Props/C19.v): scanner model (line splitting, CR stripping, 64 KiB token limit - boundary pinned against the real "
+        "library) and the select loop of CollectJSONStream as an event-driven machine over the dynamic collector: for every input and every "
+        "schedule in which the flush timer does not fire before the source is exhausted the result is Ok of FTDC decoding to the numeric "
+        "projection of every line in order (composed with C08_dynamic) or an error when a line is malformed, too long or unreadable - never Ok of "
+        "a proper prefix (C19_json, C19_json_never_short, C19_json_refusal, C19_json_live); CollectRuntime as a machine over the streaming "
+        "collector for every valid option set and every timer/cancel event list: the i-th sample has id i, every file is valid FTDC, ids across "
+        "files are 0..n-1 without gaps, the final partial batch is flushed on cancel, an idle flush creates no file (C19_runtime*). "
+        "C19_timer_refuted is the known finding D17. Correspondence: line streams with lengths straddling the limit, schema changes, a malformed "
+        "line at every position; CollectRuntime runs with jittered cancellation incl. parallel collectors, files read back.",
+        "Trusted: OS, timers and file system are observed, not modelled; Extended-JSON parsing is the library's (its own parse of every line is "
+        "handed to the model). Known finding D17: the flush timer firing early returns a shortened result with nil error. Follow mode not covered. "
+        "Documents without numeric leaves that the dynamic collector cannot tell apart are outside docs_ok.",
+        "Coq proof (event-machine invariants, composition with C08) + differential correspondence",
+        "DESIGN.md section 8 C19"),
     chk("C20",
         "Seven Coq theorems (Props/C20.v) over a Gallina model of t2.go (TranslateGenny, translateAtNextWindow with its inclusive prevIdx "
         "cursor and chunk advance, translateMetrics' selection by key, GetGennyTime, the 300-sample streaming collector): for every actor list "
@@ -139,6 +169,50 @@ CHECKS = [
         "skipped by the library (the spec covers int32/int64/double). Non-minimal varints are covered by the theorem but not generated.",
         "Coq proof (independent spec, loop invariant, composition with the C01 invariants) + two-way differential correspondence",
         "DESIGN.md section 8 C03"),
+    chk("C04",
+        "13 Coq theorems (Props/C04.v) over the byte-level reader model (Model/Frame.v: readBufBSON, readDiagnostic, readChunks with the "
+        "payload read by the same framing function and the 2^27 size limit; Model/Validate.v mirroring the structural validation in read.go): "
+        "for EVERY byte string: the reader's fuel suffices (termination), every delivered chunk makes every view total - no out-of-range "
+        "index, timestamp halves paired (C04_no_panic); for every sequence of valid documents every byte prefix reads back exactly the "
+        "documents wholly inside it with an error iff the cut is inside a document (C04_truncation); chunks before a damaged tail are still "
+        "delivered (C04_prefix_intact); no error is reported iff the input is exactly a concatenation of valid documents whose chunks all decode "
+        "(C04_error_iff / C04_error_reported); the validator accepts exactly what the strict decoder decodes (C04_validate_sound/complete, fuel "
+        "lemmas); the byte-level chunk reader coincides with the document-level reader of C01-C11 on collector output (C04_bridge, "
+        "C04_bridge_stream). Correspondence: every prefix, single-byte substitution/insertion/deletion at every offset of the outer stream and "
+        "of the re-compressed payload, perturbed length/count fields, type confusion - each stream through all five reader entry points in a "
+        "watchdog'd worker process; crashes and hangs are violations; oracle on error flags and on the chunks before the first damaged byte.",
+        "Trusted: as C01; birch's lazy parsing of embedded documents (the validation now rejects what birch would panic on). That an arbitrary "
+        "corruption makes a stream ill-formed is established per mutant by the model, not by an abstract corruption theorem. Process-level "
+        "memory exhaustion is bounded by the 2^27-value limit (about 1 GiB); a legal near-limit chunk costs tens of seconds. No native fuzz soak.",
+        "Coq proof (fuel/termination, prefix induction, validator-decoder equivalence) + exhaustive mutant classes in a watchdog'd subprocess",
+        "DESIGN.md section 8 C04"),
+    chk("C05",
+        "Coq theorems (Props/C05.v) over a labelled transition system of the reader goroutines (document reader RD, chunk decoder RC, document / "
+        "matrix worker W with its sample streamer S, consumer; unbuffered and buffered channels with arbitrary capacities; one cancel flag per "
+        "cancel function with the context parent relation; catcher as a list), for EVERY input (unbounded lists of good/bad/other documents ending "
+        "cleanly or in a read error) and EVERY schedule: C05_error_visible - once the consumer has seen the end of a failed stream an error is "
+        "registered, for the chunk iterator and the layered document and matrix/series iterators; C05_err_stays (monotone); C05_all_errors_kept; "
+        "C05_local_traces - every goroutine's schedule-point labels are a word of its automaton; C05_order_matters - with the pre-repair order "
+        "(close before Add) a 5-step schedule loses the error. Correspondence: stall enumeration over (schedule point, occurrence) x failure "
+        "location x 5 entry points on the real readers (the hook inside catcher.Add is the point 'about to register an error'), perturbed "
+        "schedules, local-trace conformance, concurrent catcher runs.",
+        "Trusted: Go runtime semantics of channels/select/context/mutex (the LTS); Close and catcher.Add are atomic steps in the model; "
+        "blocking inside a caller-supplied io.Reader and export errors of the matrix worker are not modelled.",
+        "Coq proof (inductive invariant over all schedules and inputs) + systematic stall schedules and local-trace conformance on the real code",
+        "DESIGN.md section 8 C05, Appendix A"),
+    chk("C06",
+        "Coq theorems (Props/C06.v) over the same LTS with the code's capacities (2 / 100 / 25 / 100): after Close or cancellation of the "
+        "construction context (flags monotone) the system never deadlocks short of all goroutines being done (C06_no_deadlock), a measure linear "
+        "in the unread input strictly decreases with every goroutine step (C06_bounded) so every goroutine terminates under every schedule "
+        "(C06_terminates), once they are gone at most capacity further Next calls return true and none blocks (C06_next_after_close), a second "
+        "Close changes nothing (C06_close_idempotent); C06_matrix_old_refuted exhibits the pre-repair leak (worker blocked on its full 25-slot "
+        "pipe). Correspondence: every reader x stream shapes (up to 40 chunks, 300 samples) x cancel points x {Close, cancel, both, Close twice}, "
+        "goroutine profile after cancellation, further items counted, stalls before sends.",
+        "Trusted: as C05. 'Within bounded time' is proved as bounded steps under any schedule; wall-clock time and blocking inside io.Reader.Read "
+        "are outside the model. Before quiescence a select with both arms ready may deliver more than capacity items (only the linear bound "
+        "holds there), so the capacity bound is stated after the goroutines have exited, as the harness measures it.",
+        "Coq proof (no-deadlock + decreasing measure over all schedules) + outcome correspondence on the real readers",
+        "DESIGN.md section 8 C06, Appendix A"),
     chk("C07",
         "Coq theorems (Props/C07.v) for the five compressing collector kinds, every chunk size and EVERY operation history (Add, unreadable Add, "
         "Resolve, Reset, Flush, SetMetadata, Info; any mix of schemas the collector can tell apart): C07_log — after every operation "
@@ -164,6 +238,20 @@ CHECKS = [
         "schema-aware collectors (D9, D10) is detected by the oracle (see DESIGN.md section 7).",
         "Coq proof (induction over document sequences, run-length/capacity arithmetic) + differential correspondence",
         "DESIGN.md section 8 C08"),
+    chk("C09",
+        "6 Coq theorems (Props/C09.v): for the streaming collectors, every history and every fault schedule of clean successes and errors that "
+        "consume nothing: the writer's bytes are at every instant the concatenation of complete valid documents (C09_log_wellformed); hence "
+        "every byte prefix decodes to exactly the chunks wholly contained in it with an error iff it ends inside a document (C09_prefix, via "
+        "C04_truncation and C04_bridge); after k accepted samples at least N*floor((k-1)/N) are in the writer (C09_durability); a failing write "
+        "makes the Add/flush return an error, leaves collector and log literally unchanged, and after any later successful flush the decoded log "
+        "holds every accepted sample exactly once in order (C09_faults_error - the executable statement c09_run is proved true for every such "
+        "history, for all compressing kinds; C09_failed_write). The short-write case is false of the faithful model: C09_short_write_refuted "
+        "(known finding D18). Correspondence: every byte offset of the written streams as a crash point (exhaustive for the generated logs), every "
+        "placement of one or two faults among the first 8 (12) writes x 3 streaming constructors incl. NewWriterCollector x N in {1,2,3}.",
+        "Trusted: as C04. Known finding D18: a Write that consumes part of the payload leaves the partial bytes in the stream and the retry "
+        "appends the whole payload (reported as KNOWN-FINDING when the check's own two-write witness reproduces it).",
+        "Coq proof (invariant with fault schedules, prefix theorem) + exhaustive crash-point and fault-placement enumeration",
+        "DESIGN.md section 8 C09"),
     chk("C10",
         "10 Coq theorems (Props/C10.v) over a labelled transition system of the synchronized collector (RW mutex, Lock/op/Unlock as separate "
         "steps) and of the buffered collector over it (pipe of any capacity incl. rendezvous, drainer, producers whose select arms are separate "
